@@ -244,22 +244,23 @@ def lattice(refdom_name, n, rng):
     return np.array(pts).T
 
 
-def check_global_duality(label, factory, mesh, report, tol=1e-6):
+def check_global_duality(label, factory, mesh, report, tol=1e-6, elem=None, tind=None, tag=''):
     """ElementGlobal family: the functional each DOF's NAME denotes (u, u_x, u_xy, u_xz, ..., u_n at an edge), taken at
     the canonical location of the DOF's entity (vertex / mean of the facet's vertices / mean of all vertices) from the
     fields gbasis delivers, applied to basis function j, is delta_ij (u_n: up to the sign convention of the normal).
     Independent of gdof: names from dofnames, locations from the geometry.  Returns (comparisons, max deviation)."""
     from . import c09_gdof
-    e = fresh(factory)
+    e = fresh(factory) if elem is None else elem
     exp = c09_gdof.expected(e)
     X = np.array([[float(c) for c in pt] for pt in c09_gdof.canonical_points(e)]).T      # (dim, nb) reference points
     mapping = mesh._mapping()
     nb, d = len(exp), mesh.p.shape[0]
-    nel = mesh.t.shape[1]
+    cells = np.arange(mesh.t.shape[1]) if tind is None else np.asarray(tind)
+    nel = len(cells)
     facets = e.refdom.facets or []
     L = np.zeros((nel, nb, nb))
     for j in range(nb):
-        f = e.gbasis(mapping, X, j)[0]
+        f = e.gbasis(mapping, X, j, tind=tind)[0]
         fields = {0: np.asarray(f), 1: np.asarray(f.grad)}
         for k, nm in ((2, 'hess'), (3, 'grad3'), (4, 'grad4')):
             if getattr(f, nm, None) is not None:
@@ -267,7 +268,7 @@ def check_global_duality(label, factory, mesh, report, tol=1e-6):
         for i, (kind, _) in enumerate(exp):
             if kind.startswith('u_n@edge'):
                 a, b = facets[int(kind[len('u_n@edge'):])]
-                tvec = mesh.p[:, mesh.t[b]] - mesh.p[:, mesh.t[a]]          # (2, nel)
+                tvec = mesh.p[:, mesh.t[b, cells]] - mesh.p[:, mesh.t[a, cells]]          # (2, nel)
                 nrm = np.array([tvec[1], -tvec[0]]) / np.linalg.norm(tvec, axis=0)
                 L[:, i, j] = np.einsum('ic,ic->c', fields[1][:, :, i], nrm)
             else:
@@ -287,10 +288,36 @@ def check_global_duality(label, factory, mesh, report, tol=1e-6):
             worst = max(worst, w)
             if not w <= tol:
                 c = int(np.argmax(dev))
-                report(f'elem={label}:functional-duality',
-                       f'{label}: the functional named {kind} of local DOF {i} (canonical location of its entity) applied to basis '
+                report(f'elem={label}:functional-duality{tag}',
+                       f'{label}{" (" + tag.strip(":") + ")" if tag else ""}: the functional named {kind} of local DOF {i} (canonical location of its entity) applied to basis '
                        f'function {j} is {float(got[c])!r}, expected {want} (cell {c})',
                        {'element': label, 'dof': i, 'dofname': kind, 'basis_function': j, 'cell': c, 'value': float(got[c]),
                         'mesh_class': type(mesh).__name__, 'p': mesh.p.tolist(), 't': mesh.t.tolist(),
-                        'reference_point': X[:, i].tolist()})
+                        'tind': None if tind is None else [int(c) for c in cells], 'reference_point': X[:, i].tolist()})
     return nb * nb * nel, worst
+
+
+def check_global_reuse(label, factory, meshes, report, rng, tol=1e-6):
+    """ONE element object serving several bases in sequence: the same reference points on different meshes of equal
+    size and on different cell subsets of one mesh.  The named functionals must stay dual to the delivered basis."""
+    e = fresh(factory)
+    n, worst = 0, 0.0
+
+    def step(m, tind, tag):
+        nonlocal n, worst
+        try:
+            a, w = check_global_duality(label, factory, m, report, tol, elem=e, tind=tind, tag=tag)
+            n, worst = n + a, max(worst, w)
+        except Exception as ex:  # noqa — an exception of the implementation on a valid call sequence is a failing input
+            report(f'elem={label}:functional-duality{tag}-exception',
+                   f'{label}: one element object used on several meshes / cell subsets in sequence: gbasis raised '
+                   f'{type(ex).__name__}: {ex}',
+                   {'element': label, 'step': tag, 'p': m.p.tolist(), 't': m.t.tolist(),
+                    'tind': None if tind is None else [int(c) for c in tind]})
+    for k, m in enumerate(meshes):
+        step(m, None, f':reused-object:mesh{k}')
+    for k, m in enumerate(meshes[:2]):
+        nt = m.t.shape[1]
+        if nt >= 2:
+            step(m, np.sort(rng.choice(nt, size=nt - 1, replace=False))[::-1].copy(), f':reused-object:subset{k}')
+    return n, worst
